@@ -56,6 +56,13 @@ REQUIRED_THEOREMS += ["op_greater_tie", "op_less_tie", "op_subtract_tie", "op_mu
                       "dispatch_is_the_pinned_table"]
 THEOREM_MODULES.append("Yarel.Props.FnsTie.Compiler")
 REQUIRED_THEOREMS += ['precedence_from_discr', 'precedence_from_panics_iff', 'precedence_names_are_the_table']
+# the expression compilers translated from compiler.rs on every run (Props/FnsTie/Statements): every binary operator parses its right operand
+# one level tighter than its own level in RULES (as read on this run) and emits the reference table's instruction(s); prefix operators,
+# and / or (short-circuit jump skeleton), `..`; if / while test skeletons (the condition value is popped on both sides)
+THEOREM_MODULES.append("Yarel.Props.FnsTie.Statements")
+REQUIRED_THEOREMS += ["binary_operator_table", "binary_other_tokens_emit_nothing", "binary_table_is_the_reference_table", "unary_operator_table",
+                      "and_skeleton", "or_skeleton", "dotdot_skeleton", "if_statement_skeleton", "while_statement_skeleton",
+                      "expression_statement_skeleton", "condition_value_popped_on_both_sides"]
 
 
 def gen_leaf(r, env, numeric):
